@@ -12,6 +12,9 @@ import OvniModel.Lemmas.EmitInit
 import OvniModel.Emu.Basic
 import OvniModel.Lemmas.TaskHook
 import OvniModel.Lemmas.SysEmit
+import OvniModel.Lemmas.TaskCouple
+import OvniModel.Lemmas.TaskCoupleTotal
+import OvniModel.Lemmas.EmitZero
 
 /-!
 # C06 — view consistency: the tracking muxes compute `thView` / `cpuView`
@@ -35,7 +38,10 @@ transcribes `prv_register` / `emit` of `pv/prv.c` and the second loop of
 `View.records` (`emit_step`, `emu_event_emit`, `emu_event_fail_iff`,
 `emu_step_lines`, `emu_history_emit`, `emu_run_emit_driver`).  Task layer
 (section "The task layer"): `Emu/TaskHook.lean`, `emu_event_task`,
-`emu_history_task` — no hook hypothesis.
+`emu_history_task` — no hook hypothesis; section "The task layer's copy of the
+task channels IS the thread's channels": `Coupled`, `coupled_step`,
+`coupled_history`, `coupled_verdicts`, `task_hook_accepts_iff`, `emu_history_task_coupled`,
+`emu_run_task_driver`.  `PRV_ZERO` registrations: `emit_step_zero`.
 -/
 namespace Ovni.Props.C06
 open Ovni.Emu Ovni.Generated
@@ -962,34 +968,16 @@ theorem fresh_cpuView {e : Emu} {b0 b : Bay} {fresh : Nat → Bool} (hc : e.shap
   unfold cpuView cpuSelected
   rw [hnull]; rfl
 
-/-- **emit_step (any simulated step).**  `e → e'` by channel operations the bay
-    can replay (`Sim`: an event's handlers, or the connect-time writes).  From
-    `Inv`, `FreshInv` and `EmitInv`:
-
-    * the bay step of `emu_event` (writes `b → b1`, `bay_propagate` to `bF`, `Inv`
-      again) and `FreshInv` for `freshE fresh e'`;
-    * `bay_propagate` WITH the PRV callbacks (`Bay.propagateP`) fails iff
-      `viewRecordsC e e'` fails — the only error is "forbidden value 0";
-    * otherwise it ends in the same `bF`; its lines `L` (dirty-list order) are a
-      permutation of a list `Lr` (row order of `records`) whose *effective* lines
-      — those that change what their row shows — are exactly `viewRecordsC e e'`;
-      the other lines of `L` repeat the value their row already shows (first
-      emission of a null, `PRV_EMITDUP`, non-null `PRV_SKIPDUPNULL` duplicates);
-    * `EmitInv` holds again with the rows updated by `L`;
-    * `viewRecordsC e e'` succeeds iff `viewRecords e e'` (the model part of
-      `records`) does (⇐ when the mux defaults are legal Paraver values). -/
-theorem emit_step {e e' : Emu} {b0 b : Bay} {fresh : Nat → Bool} {lvs : List (Option Value)} {tvs : List Int}
+/-- The bay step of a simulated step with the registered channels' values before
+    and after: `Bay.viewRecs` on `Shape.regs` IS `viewRecordsC` (the part of
+    `emit_step` that does not depend on the flags of the registrations). -/
+theorem emit_step_frame {e e' : Emu} {b0 b : Bay} {fresh : Nat → Bool}
     (hc : e.shape.connect = .ok b0) (hs : Shaped e) (hi : Inv b0 e b) (hf : FreshInv e.shape b fresh)
-    (hE : EmitInv e.shape.regs lvs tvs b) (hfl : SpecFlagsOk e.specs) (hsim : Sim e e') :
+    (hsim : Sim e e') :
     ∃ b1 bF em, Bay.Writes (· < e.shape.L) b b1 ∧ Mirrors e' b1 ∧ b1.propagate = .ok (bF, em) ∧
       Shaped e'.flushAll ∧ e'.flushAll.shape = e.shape ∧ Inv b0 e'.flushAll bF ∧
       FreshInv e.shape bF (freshE fresh e') ∧
-      ((∃ x, viewRecordsC e e' fresh (freshE fresh e') = .error x) ↔
-        (∃ y, b1.propagateP e.shape.regs lvs = .error y)) ∧
-      (∀ y, b1.propagateP e.shape.regs lvs = .error y → y = .prvZero) ∧
-      (∀ vr, viewRecordsC e e' fresh (freshE fresh e') = .ok vr →
-        ∃ lvs' L Lr, b1.propagateP e.shape.regs lvs = .ok (bF, lvs', L) ∧ L.Perm Lr ∧
-          vr = (Lr.filter (effective tvs)).map (·.2) ∧ EmitInv e.shape.regs lvs' (tvStep tvs L) bF) ∧
+      b.viewRecs e.shape.regs bF = viewRecordsC e e' fresh (freshE fresh e') ∧
       (CpuDfltOk e.specs → ∀ v, viewRecords e e' = .ok v →
         ∃ vr, viewRecordsC e e' fresh (freshE fresh e') = .ok vr) ∧
       (∀ vr, viewRecordsC e e' fresh (freshE fresh e') = .ok vr → ∃ v, viewRecords e e' = .ok v) := by
@@ -1040,8 +1028,6 @@ theorem emit_step {e e' : Emu} {b0 b : Bay} {fresh : Nat → Bool} {lvs : List (
     exact this
   have heq : b.viewRecs e.shape.regs bF = viewRecordsC e e' fresh (freshE fresh e') :=
     viewRecs_eq_viewRecordsC hs' hshape' hthO hthN hcpO hcpN
-  obtain ⟨h1, h2, h3⟩ := Bay.emit_step hi.wf hw hp hE (Shape.regs_flags hfl)
-  rw [heq] at h1 h3
   have hfreshO : ∀ x' ∈ e'.cpus, fresh x'.gindex = true → ∀ ms ∈ e'.specs, ∀ (i : Nat), i < ms.nch →
       ms.cpuDflt i ≠ .null → cpuView e (e.cpus.getD x'.gindex x') ms i = ms.cpuDflt i := by
     intro x' hx' hfc ms hms i hil hdn
@@ -1071,7 +1057,7 @@ theorem emit_step {e e' : Emu} {b0 b : Bay} {fresh : Nat → Bool} {lvs : List (
     have := fresh_cpuView hcF hsF hinv (hshF.symm ▸ hfF) hxF (hspecsF ▸ hk) hil (hgi ▸ hfc) hdn
     rw [cpuView_flushAll] at this
     exact this
-  refine ⟨b1, bF, em, hw, hm1, hp, hsF, hshF, hinv, hfF, h1, h2, h3, ?_, ?_⟩
+  refine ⟨b1, bF, em, hw, hm1, hp, hsF, hshF, hinv, hfF, heq, ?_, ?_⟩
   · intro hd v hv
     exact viewRecordsC_ok hfreshO (hspecs' ▸ hd) hv
   · intro vr hvr
@@ -1080,6 +1066,94 @@ theorem emit_step {e e' : Emu} {b0 b : Bay} {fresh : Nat → Bool} {lvs : List (
     unfold freshE at hfc
     simp only [Bool.and_eq_true] at hfc
     exact hfc.1
+
+/-- **emit_step (any simulated step).**  `e → e'` by channel operations the bay
+    can replay (`Sim`: an event's handlers, or the connect-time writes).  From
+    `Inv`, `FreshInv` and `EmitInv`:
+
+    * the bay step of `emu_event` (writes `b → b1`, `bay_propagate` to `bF`, `Inv`
+      again) and `FreshInv` for `freshE fresh e'`;
+    * `bay_propagate` WITH the PRV callbacks (`Bay.propagateP`) fails iff
+      `viewRecordsC e e'` fails — the only error is "forbidden value 0";
+    * otherwise it ends in the same `bF`; its lines `L` (dirty-list order) are a
+      permutation of a list `Lr` (row order of `records`) whose *effective* lines
+      — those that change what their row shows — are exactly `viewRecordsC e e'`;
+      the other lines of `L` repeat the value their row already shows (first
+      emission of a null, `PRV_EMITDUP`, non-null `PRV_SKIPDUPNULL` duplicates);
+    * `EmitInv` holds again with the rows updated by `L`;
+    * `viewRecordsC e e'` succeeds iff `viewRecords e e'` (the model part of
+      `records`) does (⇐ when the mux defaults are legal Paraver values). -/
+theorem emit_step {e e' : Emu} {b0 b : Bay} {fresh : Nat → Bool} {lvs : List (Option Value)} {tvs : List Int}
+    (hc : e.shape.connect = .ok b0) (hs : Shaped e) (hi : Inv b0 e b) (hf : FreshInv e.shape b fresh)
+    (hE : EmitInv e.shape.regs lvs tvs b) (hfl : SpecFlagsOk e.specs) (hsim : Sim e e') :
+    ∃ b1 bF em, Bay.Writes (· < e.shape.L) b b1 ∧ Mirrors e' b1 ∧ b1.propagate = .ok (bF, em) ∧
+      Shaped e'.flushAll ∧ e'.flushAll.shape = e.shape ∧ Inv b0 e'.flushAll bF ∧
+      FreshInv e.shape bF (freshE fresh e') ∧
+      ((∃ x, viewRecordsC e e' fresh (freshE fresh e') = .error x) ↔
+        (∃ y, b1.propagateP e.shape.regs lvs = .error y)) ∧
+      (∀ y, b1.propagateP e.shape.regs lvs = .error y → y = .prvZero) ∧
+      (∀ vr, viewRecordsC e e' fresh (freshE fresh e') = .ok vr →
+        ∃ lvs' L Lr, b1.propagateP e.shape.regs lvs = .ok (bF, lvs', L) ∧ L.Perm Lr ∧
+          vr = (Lr.filter (effective tvs)).map (·.2) ∧ EmitInv e.shape.regs lvs' (tvStep tvs L) bF) ∧
+      (CpuDfltOk e.specs → ∀ v, viewRecords e e' = .ok v →
+        ∃ vr, viewRecordsC e e' fresh (freshE fresh e') = .ok vr) ∧
+      (∀ vr, viewRecordsC e e' fresh (freshE fresh e') = .ok vr → ∃ v, viewRecords e e' = .ok v) := by
+  obtain ⟨b1, bF, em, hw, hm1, hp, hsF, hshF, hinv, hfF, heq, h4, h5⟩ := emit_step_frame hc hs hi hf hsim
+  obtain ⟨h1, h2, h3⟩ := Bay.emit_step hi.wf hw hp hE (Shape.regs_flags hfl)
+  rw [heq] at h1 h3
+  exact ⟨b1, bF, em, hw, hm1, hp, hsF, hshF, hinv, hfF, h1, h2, h3, h4, h5⟩
+
+/-- every model channel has a duplicate policy (`PRV_ZERO` allowed) -/
+def SpecDupOk (specs : List ModelSpec) : Prop :=
+  ∀ m ∈ specs, ∀ i, i < m.nch → DupOk (m.prvFlags.getD i 0)
+
+theorem SpecFlagsOk.dup {specs : List ModelSpec} (h : SpecFlagsOk specs) : SpecDupOk specs :=
+  fun m hm i hi => (h m hm i hi).1
+
+theorem regs_dup {σ : Shape} (h : SpecDupOk σ.specs) : ∀ r ∈ σ.regs, DupOk r.flags := by
+  intro r hr
+  have key : ∀ (f : Nat → Nat → Nat → Nat) (file : Nat) (row : Nat),
+      r ∈ (σ.specs.zipIdx.flatMap fun mk => (List.range mk.1.nch).map fun i =>
+        ({ chan := f mk.2 i 0, file := file, row := row, type := mk.1.pvtType.getD i 0,
+           flags := mk.1.prvFlags.getD i 0 } : PrvReg)) → DupOk r.flags := by
+    intro f file row hm
+    obtain ⟨mk, hmk, hm⟩ := List.mem_flatMap.mp hm
+    obtain ⟨i, hi, rfl⟩ := List.mem_map.mp hm
+    have hmem : mk.1 ∈ σ.specs := by
+      obtain ⟨m, k⟩ := mk
+      exact List.mem_of_getElem? (List.mem_zipIdx_iff_getElem?.mp hmk)
+    exact h mk.1 hmem i (List.mem_range.mp hi)
+  rcases List.mem_append.mp hr with h1 | h1
+  · obtain ⟨g, _, hg⟩ := List.mem_flatMap.mp h1
+    exact key (fun k i _ => σ.thOut g k i) 0 (g + 1) hg
+  · obtain ⟨c, _, hc⟩ := List.mem_flatMap.mp h1
+    exact key (fun k i _ => σ.cpuOut c k i) 1 (c + 1) hc
+
+/-- **emit_step with `PRV_ZERO` model channels allowed.**  As `emit_step`, for
+    specs whose channels only need a duplicate policy (`SpecDupOk`): the model
+    rows `viewRecordsC` and the lines the PRV callbacks write have the same
+    EFFECTIVE lines (`Bay.emit_step_zero`; with `PRV_ZERO` a line with value 0 for
+    a channel that goes from null to 0 is written by both sides and repeats what
+    the row shows). -/
+theorem emit_step_zero_emu {e e' : Emu} {b0 b : Bay} {fresh : Nat → Bool} {lvs : List (Option Value)}
+    {tvs : List Int}
+    (hc : e.shape.connect = .ok b0) (hs : Shaped e) (hi : Inv b0 e b) (hf : FreshInv e.shape b fresh)
+    (hE : EmitInv e.shape.regs lvs tvs b) (hfl : SpecDupOk e.specs) (hsim : Sim e e') :
+    ∃ b1 bF em, Bay.Writes (· < e.shape.L) b b1 ∧ Mirrors e' b1 ∧ b1.propagate = .ok (bF, em) ∧
+      Shaped e'.flushAll ∧ e'.flushAll.shape = e.shape ∧ Inv b0 e'.flushAll bF ∧
+      FreshInv e.shape bF (freshE fresh e') ∧
+      ((∃ x, viewRecordsC e e' fresh (freshE fresh e') = .error x) ↔
+        (∃ y, b1.propagateP e.shape.regs lvs = .error y)) ∧
+      (∀ y, b1.propagateP e.shape.regs lvs = .error y → y = .prvZero) ∧
+      (∀ vr, viewRecordsC e e' fresh (freshE fresh e') = .ok vr →
+        ∃ lvs' L Lr, b1.propagateP e.shape.regs lvs = .ok (bF, lvs', L) ∧ L.Perm Lr ∧
+          vr = (b.viewLinesT e.shape.regs bF).map (·.2) ∧
+          (b.viewLinesT e.shape.regs bF).filter (effective tvs) = Lr.filter (effective tvs) ∧
+          EmitInv e.shape.regs lvs' (tvStep tvs L) bF) := by
+  obtain ⟨b1, bF, em, hw, hm1, hp, hsF, hshF, hinv, hfF, heq, _, _⟩ := emit_step_frame hc hs hi hf hsim
+  obtain ⟨h1, h2, h3⟩ := Bay.emit_step_zero hi.wf hw hp hE (regs_dup hfl)
+  rw [heq] at h1 h3
+  exact ⟨b1, bF, em, hw, hm1, hp, hsF, hshF, hinv, hfF, h1, h2, h3⟩
 
 /-- **emu_event with the emit phase** (`emit_step` for the handlers of one
     accepted event).  `emu_event` gives the values of all rows after the event;
@@ -1494,6 +1568,171 @@ theorem emu_history_task (tm : Ovni.Task.Model) (P : Ovni.Task.ProcInfo) (tab : 
         rw [hsh1] at hr hfF hEF
         exact ⟨bF, lvsF, freshF, L :: Ls, .cons hw hpp hr, by simp [hlen], hsF, hshF.trans hsh1, hiF, hfF, hEF⟩
 
+/-! ### The task layer's copy of the task channels IS the thread's channels
+
+`taskHook` runs the task / body rules of `Emu/Task.lean` on the task layer's own
+copy of the task channels (`Ovni.Task.Emu.ch`, `.ss`) and then performs the
+channel operations on the thread's real channels.  `Coupled tm k e ε`
+(`Lemmas/TaskCouple.lean`): for every thread the real subsystem channel of the
+model (position `k` in the spec list) holds exactly the stack `ε.ss`, and the
+real body id / task id / type / app id / rank channels hold `ε.ch` — flushed,
+with the stack / duplicate properties of `setup.c`.  It holds after
+`emu_connect` (`coupled_init`) and is preserved by EVERY accepted event
+(`coupled_step`): by the task hook, by the table rows of the same model that
+push / pop the SHARED subsystem channel (`VA* VS* VU* VM* VH*`, `6*`: then the
+copy is advanced by the same push / pop, accepted by `ssPush` / `ssPop` exactly
+when `chan_push` / `chan_pop` accept it), by the rows on other channels (idle,
+thread type), by the events of every other model, and by the thread-state /
+affinity / flush / mark events, which write no raw channel of the model. -/
+
+theorem hookOf_eq (tm : Ovni.Task.Model) (P : Ovni.Task.ProcInfo) (ε : Ovni.Task.Emu)
+    (tev : Option Ovni.Task.Ev) : hookOf tm P ε tev = hookOpt tm P ε tev := by cases tev <;> rfl
+
+theorem advanceT_eq (tm : Ovni.Task.Model) (P : Ovni.Task.ProcInfo) (ε : Ovni.Task.Emu)
+    (tev : Option Ovni.Task.Ev) : advanceT tm P ε tev = advanceOpt tm P ε tev := by cases tev <;> rfl
+
+/-- The decoded event of a history entry fits its raw event (`DecodedOk`): a
+    task event (category `T` / `Y` of nOS-V / Nanos6) belongs to the model `tm`;
+    any other event carries the subsystem push / pop its table row is
+    (`ssEvOf`: read off the generated table), or nothing. -/
+def Consistent (tm : Ovni.Task.Model) (evt : EvT) : Prop :=
+  DecodedOk tm evt.1.1 evt.1.2.1 evt.1.2.2.1 evt.1.2.2.2.1 evt.2
+
+instance (tm : Ovni.Task.Model) (evt : EvT) : Decidable (Consistent tm evt) := by
+  unfold Consistent DecodedOk; infer_instance
+
+/-- **One accepted step preserves the coupling.** -/
+theorem coupled_step {tm : Ovni.Task.Model} {P : Ovni.Task.ProcInfo} {tab : List MarkType} {ε : Ovni.Task.Emu}
+    {e e2 : Emu} {b : Bay} {k : Nat} {evt : EvT} {rs : List PrvRec}
+    (hs : Shaped e) (hm : Mirrors e b) (hk : e.specs[k]? = some (specOf tm)) (hcp : Coupled tm k e ε)
+    (hd : Consistent tm evt)
+    (h : stepEv e evt.1.1 evt.1.2.1 evt.1.2.2.1 evt.1.2.2.2.1 evt.1.2.2.2.2 (hookOf tm P ε evt.2)
+      (fun e ti _ v p => markEvent tab e ti v p) = .ok (e2, rs)) :
+    Coupled tm k e2 (advanceT tm P ε evt.2) := by
+  obtain ⟨e1, hme, _, rfl⟩ := stepEv_ok h
+  rw [hookOf_eq] at hme
+  rw [advanceT_eq]
+  exact coupled_modelEvent hs hm hk hcp hd hme
+
+/-- **The coupling along a history.**  For every history accepted by the
+    reference emulator running the task hook (`replayT`) whose decoded events fit
+    the raw ones, from a coupled state: the task layer's copy agrees with the
+    thread channels at the end (hence, prefix by prefix, at every instant). -/
+theorem coupled_history (tm : Ovni.Task.Model) (P : Ovni.Task.ProcInfo) (tab : List MarkType) (evs : List EvT) :
+    ∀ {e eF : Emu} {ε εF : Ovni.Task.Emu} {b0 b : Bay} {rs : List PrvRec} {k : Nat},
+    e.shape.connect = .ok b0 → Shaped e → Inv b0 e b → e.specs[k]? = some (specOf tm) → Coupled tm k e ε →
+    (∀ evt ∈ evs, Consistent tm evt) → replayT tm P tab e ε evs = .ok (eF, εF, rs) → Coupled tm k eF εF := by
+  induction evs with
+  | nil =>
+    intro e eF ε εF b0 b rs k _ _ _ _ hcp _ h
+    injection h with h; injection h with h1 h2; injection h2 with h2 _
+    subst h1; subst h2
+    exact hcp
+  | cons ev evs ih =>
+    intro e eF ε εF b0 b rs k hc hs hi hk hcp hcons h
+    rw [replayT] at h
+    split at h
+    · cases h
+    · rename_i e2 rs1 hstep
+      split at h
+      · cases h
+      · rename_i eF' εF' rs2 hrest
+        injection h with h; injection h with h1 h2; injection h2 with h2 _
+        subst h1; subst h2
+        have hcp1 := coupled_step hs hi.mirrors hk hcp (hcons ev (by simp)) hstep
+        obtain ⟨e1, hme, _, rfl⟩ := stepEv_ok hstep
+        obtain ⟨_, b2, _, _, _, _, hs1, hsh1, hi1, _⟩ :=
+          emu_event (hookSim_hookOf tm P ε ev.2) (hookSim_mark tab) hc hs hi hme
+        have hspecs1 : e1.flushAll.specs = e.specs := congrArg Shape.specs hsh1
+        exact ih (hsh1.symm ▸ hc) hs1 hi1 (hspecs1.symm ▸ hk) hcp1 (fun evt h => hcons evt (by simp [h])) hrest
+
+/-- **What the coupling means for the checks of the task layer**: in a coupled
+    state, every check `Ovni.Task.Emu.step` makes on its copy has the verdict of
+    the C channel operation on the thread's REAL channel: `ssPush` ↔ `chan_push`,
+    `ssPop` ↔ `chan_pop` on the subsystem channel, whose `chan_read` value
+    (`enforce_task_rules`) is the top of the copy; `chanSet` ↔ `chan_set` on the
+    body id / task id / type / app id / rank channels. -/
+theorem coupled_verdicts {tm : Ovni.Task.Model} {k : Nat} {e : Emu} {ε : Ovni.Task.Emu} (hcp : Coupled tm k e ε)
+    {ti : Nat} (hti : ti < e.threads.length) :
+    (∃ c, e.src (.raw ti k (taskIdx tm).ss) = some c ∧ c.cur = ofOpt (ε.ss ti).head? ∧
+      (∀ v, (∃ c', c.push e.maxStack (.int v) = .ok c') ↔ (∃ st', Ovni.Task.ssPush tm.cfg.dupSs (ε.ss ti) v = .ok st')) ∧
+      (∀ v, (∃ c', c.pop (.int v) = .ok c') ↔ (∃ st', Ovni.Task.ssPop (ε.ss ti) v = .ok st'))) ∧
+    (∀ f ∈ taskFields tm, ∃ c, e.src (.raw ti k f.1) = some c ∧ c.cur = ofOpt (f.2.2 (ε.ch ti)) ∧
+      ∀ v, (∃ c', c.set (ofOpt v) = .ok c') ↔ (∃ w, Ovni.Task.chanSet f.2.1 (f.2.2 (ε.ch ti)) v = .ok w)) := by
+  constructor
+  · obtain ⟨c, h1, h2⟩ := hcp.ss ti hti
+    exact ⟨c, h1, h2.cur_eq, fun v => by rw [hcp.maxStack]; exact h2.push_iff v, fun v => h2.pop_iff v⟩
+  · intro f hf
+    obtain ⟨c, h1, h2⟩ := hcp.single ti hti f hf
+    exact ⟨c, h1, h2.cur, fun v => h2.set_iff v⟩
+
+/-- **In a coupled state the task hook accepts exactly what the task layer
+    accepts.**  For an event of the hook's thread: `taskHook` succeeds iff
+    `Ovni.Task.Emu.step` does (and the event is a task-state or creation event of
+    that thread) — no `chan_push` / `chan_pop` / `chan_set` on the thread's real
+    channels refuses what the copy accepted.  So along a history (`coupled_history`)
+    the verdict of the reference emulator on a task event IS the verdict of the
+    task layer (`Emu/Task.lean`, the model C07's check drives through `drv_task`). -/
+theorem task_hook_accepts_iff {tm : Ovni.Task.Model} {P : Ovni.Task.ProcInfo} {ε : Ovni.Task.Emu}
+    {ev : Ovni.Task.Ev} {e : Emu} {ti a k : Nat} {p : List Nat} (hs : Shaped e)
+    (hk : e.specs[k]? = some (specOf tm)) (hcp : Coupled tm k e ε) (hti : ti < e.threads.length) :
+    (∃ e1, hookOf tm P ε (some ev) e ti (specOf tm).char a p = .ok e1) ↔
+      ((∃ ε', Ovni.Task.Emu.step tm P ε ev = .ok ε') ∧
+        ((∃ t v bp, ev = .task ti v t bp) ∨ (∃ ty h f, ev = .typeCreate ty h f) ∨
+          (∃ par t ty, ev = .taskCreate par t ty))) :=
+  taskHook_accepts_iff (a := a) (p := p) hs hk hcp hti
+
+/-- **emu_history with the task layer, no separate-state caveat.**  For ANY
+    history accepted by the reference emulator running the task hook and the mark
+    hook, whose decoded events fit the raw ones, from a coupled state: the bay run
+    with the PRV callbacks exists, `Inv`, `FreshInv`, `EmitInv` hold at the end —
+    and the state the task rules ran on is the state of the thread's real
+    channels (`Coupled` at the end and at every prefix; `coupled_verdicts`). -/
+theorem emu_history_task_coupled (tm : Ovni.Task.Model) (P : Ovni.Task.ProcInfo) (tab : List MarkType)
+    (evs : List EvT) {e eF : Emu} {ε εF : Ovni.Task.Emu} {b0 b : Bay} {rs : List PrvRec} {fresh : Nat → Bool}
+    {lvs : List (Option Value)} {tvs : List Int} {k : Nat}
+    (hc : e.shape.connect = .ok b0) (hs : Shaped e) (hi : Inv b0 e b) (hf : FreshInv e.shape b fresh)
+    (hE : EmitInv e.shape.regs lvs tvs b) (hfl : SpecFlagsOk e.specs) (hd : CpuDfltOk e.specs)
+    (hk : e.specs[k]? = some (specOf tm)) (hcp : Coupled tm k e ε) (hcons : ∀ evt ∈ evs, Consistent tm evt)
+    (h : replayT tm P tab e ε evs = .ok (eF, εF, rs)) :
+    ∃ bF lvsF freshF Ls, RoundsP e.shape.regs (· < e.shape.L) (b, lvs) Ls (bF, lvsF) ∧ Ls.length = evs.length ∧
+      Shaped eF ∧ eF.shape = e.shape ∧ Inv b0 eF bF ∧ FreshInv e.shape bF freshF ∧
+      EmitInv e.shape.regs lvsF (Ls.foldl tvStep tvs) bF ∧ Coupled tm k eF εF := by
+  obtain ⟨bF, lvsF, freshF, Ls, h1, h2, h3, h4, h5, h6, h7⟩ :=
+    emu_history_task tm P tab evs hc hs hi hf hE hfl hd h
+  exact ⟨bF, lvsF, freshF, Ls, h1, h2, h3, h4, h5, h6, h7, coupled_history tm P tab evs hc hs hi hk hcp hcons h⟩
+
+/-- **From `emu_connect`, for the emulator with the task layer** (any hierarchy
+    with at least one thread, any enabled models among which the task model at
+    position `k`, any mark table): every history accepted by `replayT` from the
+    initial states of both layers, whose decoded events fit the raw ones, has its
+    bay run with the PRV callbacks, and the task layer's copy agrees with the
+    thread channels at the end.  No hook hypothesis, no coupling hypothesis. -/
+theorem emu_run_task_driver (tm : Ovni.Task.Model) (P : Ovni.Task.ProcInfo) (threads : List (Int × Int × Nat))
+    (cpus : List (Nat × Int × Bool)) (enabled : List Nat) (lint : Bool) (tab : List MarkType) (evs : List EvT)
+    {eF : Emu} {εF : Ovni.Task.Emu} {rs : List PrvRec} {k : Nat} (hnt : 0 < threads.length)
+    (hk : (mkEmu threads cpus enabled lint (markExtra tab)).specs[k]? = some (specOf tm))
+    (hcons : ∀ evt ∈ evs, Consistent tm evt)
+    (h : replayT tm P tab (mkEmu threads cpus enabled lint (markExtra tab)) Ovni.Task.Emu.init evs = .ok (eF, εF, rs)) :
+    ∃ b0 bI lvsI bF lvsF tvsF freshF Ls,
+      (mkEmu threads cpus enabled lint (markExtra tab)).shape.connect = .ok b0 ∧
+      Inv b0 (mkEmu threads cpus enabled lint (markExtra tab)) bI ∧
+      RoundsP (mkEmu threads cpus enabled lint (markExtra tab)).shape.regs
+        (· < (mkEmu threads cpus enabled lint (markExtra tab)).shape.L) (bI, lvsI) Ls (bF, lvsF) ∧
+      Ls.length = evs.length ∧ Shaped eF ∧ Inv b0 eF bF ∧
+      FreshInv (mkEmu threads cpus enabled lint (markExtra tab)).shape bF freshF ∧
+      EmitInv (mkEmu threads cpus enabled lint (markExtra tab)).shape.regs lvsF tvsF bF ∧
+      Coupled tm k eF εF := by
+  obtain ⟨hmo, hchars, hinit⟩ := driver_side_conditions enabled tab
+  obtain ⟨hfl, hiv, hd⟩ := driver_emit_conditions enabled tab
+  have hc := bayOf_connects (e := mkEmu threads cpus enabled lint (markExtra tab)) hmo
+  obtain ⟨hs, _, bI, lvsI, tvsI, _, _, _, hi, hf, hE⟩ :=
+    emu_init_emit threads cpus enabled lint (markExtra tab) hc hnt hchars hinit hfl hiv
+  obtain ⟨bF, lvsF, freshF, Ls, h1, h2, h3, _, h5, h6, h7, h8⟩ :=
+    emu_history_task_coupled tm P tab evs hc hs hi hf hE hfl hd hk
+      (coupled_init tm threads cpus enabled lint (markExtra tab) hk) hcons h
+  exact ⟨_, bI, lvsI, bF, lvsF, _, freshF, Ls, hc, hi, h1, h2, h3, h5, h6, h7, h8⟩
+
 /-! ### The system rows
 
 The thread's `cpu` / `tid` / state channels and the CPU's `pid` / `tid` /
@@ -1661,10 +1900,18 @@ theorem emu_step_lines {e e2 : Emu} {b0 b : Bay} {ti mc c v : Nat} {p : List Nat
 --  (1) In `emu_step_records` the equation `rs ~ sysRecords ++ effective lines` is stated for
 --      states without fresh CPUs; with fresh CPUs the right-hand side is `viewRecordsC`
 --      (exact), which differs from `viewRecords` on the CPU rows with a mux default only.
---  (2) `PRV_ZERO` channels are excluded from the bay-side emit theorems (`NoZero`: with
---      `PRV_ZERO` null and 0 both show as 0 and "effective" would have to be stated on
---      values, not lines); no model channel has the flag (`generated_prv_flags`), only the
---      system row `nrunning`, for which the lines are exact anyway (3).
+--  (2) `PRV_ZERO` channels: the BAY-side theorem now covers them (`emit_step_zero` =
+--      `Bay.emit_step_zero`, `Lemmas/EmitZero.lean`: any registrations with a duplicate
+--      policy, value 0 allowed; the effective lines of `emitView` and of `emit` coincide;
+--      `emit_step_zero_noZero` recovers the old statement; `decide` examples with a
+--      `PRV_SKIPDUP | PRV_ZERO` registration — the flags of the breakdown outputs — where the
+--      OLD conclusion is false); so does the emulator-level step (`emit_step_zero_emu`:
+--      `emit_step` for specs with `SpecDupOk` only, on `Shape.regs`).  Still restricted to
+--      `NoZero`: the per-event / history forms `emu_event_emit` / `emu_history_emit` /
+--      `emu_step_records` (`SpecFlagsOk`; every generated spec satisfies it —
+--      `generated_prv_flags` — so nothing the reference emulator registers is excluded).  The
+--      breakdown outputs themselves are not channels of `bayOf` (6), so `emit_step_zero` is
+--      not instantiated for them here.
 --  (3) The system channels (thread `cpu` / `tid` / `state` row, CPU `nrunning` / `pid` /
 --      `tid`) are not part of the `Bay` model / `Shape.regs`: the reference emulator keeps
 --      them in its `Thread` / `Cpu` records and their emit callback is modelled on those
@@ -1675,17 +1922,37 @@ theorem emu_step_lines {e e2 : Emu} {b0 b : Bay} {ti mc c v : Nat} {p : List Nat
 --      that these channels sit on the same dirty list as the bay's (only the order of the
 --      lines within one timestamp depends on it), and the state channel / `th_running` /
 --      `th_active` exist twice (record and bay source, tied by `Mirrors`).
---  (4) The task layer of nOS-V / Nanos6 (`VT*`, `VY*`, `6T*`, `6Y*`): `HookSim` is now
---      PROVED for the task hook (`Emu/TaskHook.lean`, `hooks_in_use_task`, `emu_event_task`,
---      `emu_history_task`).  What stays open there: the hook keeps the task layer's own copy
---      of the task channels (`Ovni.Task.Emu.ch` / `.ss`, on which `Ovni.Task.Emu.step` runs
---      its duplicate checks and `enforce_task_rules`) next to the thread's real channels in
---      `Emu`; that the two agree along a history (a coupling invariant between `ε` and the
---      raw channels) is not proved, so the hook may refuse an event the C code accepts only
---      if they ever disagreed.  `modelEvent` does not pass the event value to the hook and
---      `Emu` has no task state: the hook is a per-event closure (`replayT`), and the decoding
---      of payloads into `Ovni.Task.Ev` is the caller's.  The driver (`Drivers/Emu.lean`)
---      still runs `noHook`; C07's check drives the task layer through its own driver.
+--  (4) The task layer of nOS-V / Nanos6 (`VT*`, `VY*`, `6T*`, `6Y*`): `HookSim` is PROVED for
+--      the task hook (`hooks_in_use_task`, `emu_event_task`, `emu_history_task`), and the
+--      coupling between the task layer's own copy of the task channels and the thread's real
+--      channels is now PROVED too (section "The task layer's copy …", `Lemmas/TaskCouple*.lean`):
+--      `Coupled` holds after `emu_connect` (`coupled_init`) and is preserved by every accepted
+--      event (`coupled_step`, `coupled_history`): task hook, table rows of the same model on
+--      the shared subsystem channel, other rows, other models, thread-state / affinity /
+--      flush / mark events; in a coupled state each check of `Ovni.Task.Emu.step` on the copy
+--      has the verdict of the C channel operation on the real channel (`coupled_verdicts`);
+--      `emu_history_task_coupled` / `emu_run_task_driver` are `emu_history_task` without the
+--      separate-state caveat.  What stays open there:
+--      (a) `replayT` carries ONE task state: one task model `tm` and one process (`ProcInfo`)
+--          for all threads; `Consistent` therefore asks that every task event of the history
+--          belongs to `tm`.  Several processes / both task models at once need a family of
+--          task states indexed by (model, process) and `Coupled` restricted to the threads
+--          of the process — not done.
+--      (b) `modelEvent` does not pass the event value to the hook and `Emu` has no task
+--          state: the hook is a per-event closure, and the decoding of the payloads of task
+--          events into `Ovni.Task.Ev` (ids, the uthash Jenkins hash of the type label) is
+--          the caller's; for NON-task events the decoded event is no longer free: it must be
+--          `ssEvOf` (computed from the generated table), which `Consistent` checks.
+--      (c) The hook still evaluates the rules on the copy and then writes the channels
+--          (`taskHook`).  Proved: in a coupled state it accepts exactly what
+--          `Ovni.Task.Emu.step` accepts (`task_hook_accepts_iff`: the real channel operations
+--          never refuse what the copy accepted), so the copy is redundant for the verdict.  A
+--          hook WITHOUT the `ch` / `ss` fields (rules evaluated on the real channels only) is
+--          not defined.
+--      (d) The driver (`Drivers/Emu.lean`) still runs `noHook`: its line protocol carries
+--          neither app id / rank of the process nor the label hash, and the e2e generator of
+--          C04–C08 emits no task events; C07's check drives the task layer through
+--          `drv_task` against `ovniemu` (X2 of C07).
 --  (5) `emu_init` / `emu_run` keep three side conditions on the spec list (accepted
 --      tracking modes so that `Shape.connect` succeeds — `bayOf_connects`; distinct model
 --      characters; connect-time values on single channels) and "at least one thread".
@@ -2182,5 +2449,122 @@ example : ∃ (e2 : Emu) (rs s : List PrvRec) (Lr : List (Nat × PrvRec)) (tvs :
       emu_step_lines hookSim_none hookSim_none hookSys_none hookSys_none exEmuO_connect hs hi hf' hE
         (sysInv_init _ _ _ _ _) hfl hd h
     exact ⟨e2, rs, s, Lr, tvsI, rfl, hperm (fun _ _ => rfl)⟩
+
+/-! ### Non-vacuity of the coupling theorems
+
+`exHistT` above (task events only) and `exHistS`: the task runs INSIDE table
+states of the same subsystem channel — `VHw` (push Worker), `VTx` (push "Task: In
+body" + the `chan_set`s), `VAr` / `VAR` (push / pop "API: Create" over the
+running body), `VTe`, `VHW`, and `VPr` (idle channel, no task channel). -/
+
+example : ∀ evt ∈ exHistT, Consistent .nosv evt := by decide
+
+def exHistS : List EvT :=
+  [((0, 79, 72, 120, [0, 0, 0, 0]), none),
+   ((0, 86, 89, 99, []), some (.typeCreate 1 7 true)),
+   ((0, 86, 84, 99, []), some (.taskCreate false 1 1)),
+   ((0, 86, 72, 119, []), some (.ssPush 0 28)),
+   ((0, 86, 84, 120, []), some (.task 0 .x 1 0)),
+   ((0, 86, 65, 114, []), some (.ssPush 0 12)),
+   ((0, 86, 65, 82, []), some (.ssPop 0 12)),
+   ((0, 86, 80, 114, []), none),
+   ((0, 86, 84, 101, []), some (.task 0 .e 1 0)),
+   ((0, 86, 72, 87, []), some (.ssPop 0 28)),
+   ((0, 79, 72, 101, []), none)]
+
+theorem exHistS_consistent : ∀ evt ∈ exHistS, Consistent .nosv evt := by decide
+
+theorem exHistS_accepted :
+    (match replayT .nosv ⟨1, -1⟩ [] exEmu Ovni.Task.Emu.init exHistS with
+      | .ok _ => true
+      | .error _ => false) = true := by decide
+
+/-- In the middle of the history (after `VAr`): the copy holds `[12, 11, 28]`
+    (head = top) and the thread's real subsystem channel `[28, 11, 12]` (bottom …
+    top); the real task-id channel shows the task. -/
+example :
+    (match replayT .nosv ⟨1, -1⟩ [] exEmu Ovni.Task.Emu.init (exHistS.take 6) with
+      | .ok (e, ε, _) =>
+        decide (ε.ss 0 = [12, 11, 28] ∧
+          (e.src (.raw 0 1 4)).map (·.vals) = some [.int 28, .int 11, .int 12] ∧
+          (e.src (.raw 0 1 1)).map (·.cur) = some (.int 1) ∧ (ε.ch 0).taskid = some 1)
+      | .error _ => false) = true := by decide
+
+/-- All hypotheses of `emu_run_task_driver` hold for `exHistS` (nOS-V at position
+    1 of the spec list of `exEmu`): the bay run exists and the copy agrees with
+    the thread channels at the end. -/
+example : ∃ eF εF rs bF, replayT .nosv ⟨1, -1⟩ [] exEmu Ovni.Task.Emu.init exHistS = .ok (eF, εF, rs) ∧
+    Inv exEmuBay eF bF ∧ Coupled .nosv 1 eF εF := by
+  cases h : replayT .nosv ⟨1, -1⟩ [] exEmu Ovni.Task.Emu.init exHistS with
+  | error x => have := exHistS_accepted; rw [h] at this; cases this
+  | ok r =>
+    obtain ⟨eF, εF, rs⟩ := r
+    obtain ⟨b0, _, _, bF, _, _, _, _, hc, _, _, _, _, hiF, _, _, hcp⟩ :=
+      emu_run_task_driver .nosv ⟨1, -1⟩ [(100, 10, 0), (101, 10, 0)] [(0, 0, false), (0, -1, true)] [79, 86] false []
+        exHistS (k := 1) (by decide) (by rfl) exHistS_consistent h
+    have hb : b0 = exEmuBay := by
+      have h1 : exEmu.shape.connect = .ok b0 := hc
+      rw [exEmuBay_connect] at h1
+      injection h1 with h1; exact h1.symm
+    subst hb
+    exact ⟨eF, εF, rs, bF, rfl, hiF, hcp⟩
+
+/-- The consistency hypothesis is needed: the same push on the shared subsystem
+    channel with no decoded event (`none` instead of `ssPush`) leaves the copy
+    behind the channel. -/
+example : ¬ Consistent .nosv ((0, 86, 72, 119, []), none) ∧
+    (match replayT .nosv ⟨1, -1⟩ [] exEmu Ovni.Task.Emu.init
+        [((0, 79, 72, 120, [0, 0, 0, 0]), none), ((0, 86, 72, 119, []), none)] with
+      | .ok (e, ε, _) => decide (ε.ss 0 = [] ∧ (e.src (.raw 0 1 4)).map (·.vals) = some [.int 28])
+      | .error _ => false) = true := by decide
+
+/-- `task_hook_accepts_iff` at the initial state (`Shaped` from `emu_init`,
+    `Coupled` from `coupled_init`): the type-creation event is accepted by the
+    hook because the task layer accepts it. -/
+example : ∃ e1, hookOf .nosv ⟨1, -1⟩ Ovni.Task.Emu.init (some (.typeCreate 1 7 true)) exEmu 0 86 89 [] = .ok e1 := by
+  obtain ⟨hfl, hiv, _⟩ := driver_emit_conditions [79, 86] []
+  obtain ⟨hs, _⟩ := emu_init_emit _ _ _ _ _ exEmuBay_connect (by decide) exEmu_chars exEmu_initSingle hfl hiv
+  have hcp := coupled_init .nosv [(100, 10, 0), (101, 10, 0)] [(0, 0, false), (0, -1, true)] [79, 86] false []
+    (k := 1) (by rfl)
+  exact (task_hook_accepts_iff (tm := .nosv) (k := 1) hs (by rfl) hcp (by decide)).mpr
+    ⟨⟨_, rfl⟩, Or.inr (Or.inl ⟨1, 7, true, rfl⟩)⟩
+
+/-! ### `PRV_ZERO` registrations (`Lemmas/EmitZero.lean`)
+
+`Bay.emit_step_zero`: `Bay.emit_step` for ANY registrations with a duplicate
+policy, `PRV_ZERO` allowed (the breakdown output channels are registered with
+`PRV_SKIPDUP | PRV_ZERO`).  With `PRV_ZERO` null and 0 both show as 0, so a
+changed channel value need not change the row: `emitView` (on values) and `emit`
+then both write a line that repeats the row, and the statement compares the
+EFFECTIVE lines of the two sides. -/
+
+/-- **One event on a bay whose registrations may have `PRV_ZERO`.** -/
+theorem emit_step_zero {ok : Nat → Prop} {b b1 bF : Bay} {em : List (Nat × Value)} {regs : List PrvReg}
+    {lvs : List (Option Value)} {tvs : List Int}
+    (wf : b.WF) (hw : Bay.Writes ok b b1) (hp : b1.propagate = .ok (bF, em))
+    (hinv : EmitInv regs lvs tvs b) (hfl : ∀ r ∈ regs, DupOk r.flags) :
+    ((∃ x, b.viewRecs regs bF = .error x) ↔ (∃ y, b1.propagateP regs lvs = .error y)) ∧
+    (∀ y, b1.propagateP regs lvs = .error y → y = .prvZero) ∧
+    (∀ vr, b.viewRecs regs bF = .ok vr → ∃ lvs' L Lr, b1.propagateP regs lvs = .ok (bF, lvs', L) ∧
+      L.Perm Lr ∧ vr = (b.viewLinesT regs bF).map (·.2) ∧
+      (b.viewLinesT regs bF).filter (effective tvs) = Lr.filter (effective tvs) ∧
+      EmitInv regs lvs' (tvStep tvs L) bF) :=
+  Bay.emit_step_zero wf hw hp hinv hfl
+
+/-- For registrations without `PRV_ZERO` every view line is effective, and the
+    statement of `Bay.emit_step` is recovered. -/
+theorem emit_step_zero_noZero {b bF : Bay} {regs : List PrvReg} {lvs : List (Option Value)} {tvs : List Int}
+    (hinv : EmitInv regs lvs tvs b) (hz : ∀ r ∈ regs, NoZero r.flags) :
+    (b.viewLinesT regs bF).filter (effective tvs) = b.viewLinesT regs bF :=
+  Bay.viewLinesT_effective_of_noZero hinv hz
+
+/-- A registration with `PRV_SKIPDUP | PRV_ZERO` (`ezRegs`, flags 10), the value
+    0 written on the null channel: the line `1:10:0` is written by both sides and
+    is not effective — the conclusion of `Bay.emit_step` fails there, that of
+    `emit_step_zero` holds (`Lemmas/EmitZero.lean`, examples). -/
+example : (∀ r ∈ ezRegs, DupOk r.flags ∧ ¬ NoZero r.flags) ∧
+    ezB0.viewRecs ezRegs ezA.1 = .ok [⟨0, 1, 10, 0⟩] ∧ ezA.2.2 = [(0, ⟨0, 1, 10, 0⟩)] ∧
+    effective [0] (0, ⟨0, 1, 10, 0⟩) = false ∧
+    (ezB0.viewLinesT ezRegs ezA.1).filter (effective [0]) = ezA.2.2.filter (effective [0]) := by decide
 
 end Ovni.Props.C06
